@@ -37,39 +37,55 @@ class SimConn(object):
     self.fault_at = {}                  # opn -> 'exc' | 'eof' | 'hang'
     self.connect_plan = ('ok', 0.0)     # ('ok'|'refuse', delay) | ('hang',) | ('manual',)
     self.sent = bytearray()             # everything the client wrote
+    self.send_max = None                # max bytes one send() call accepts (None = all); sendall() is unaffected
     self.stall_until = 0.0              # sends block until this virtual time (peer not reading: backpressure)
     self.fed_total = 0                  # bytes fed by the peer so far
     self.consumed_total = 0             # bytes the client has read so far
     self.marks = []                     # [(end offset in the fed stream, mark)] -> 'consumed' events
-    self._waiter = None
-    self._wait_kind = None
+    self._waiters = {'r': None, 'w': None}
     self.peer = None
     self.user = {}
     net._new_conn(self)
 
   # ------------------------------------------------------------ parking
+  # One waiter per direction: a reader parked in recv() and a writer blocked in sendall() (different
+  # greenlets, as in the mux transports) do not disturb each other.  connect shares the read slot.
+  @staticmethod
+  def _slot(kind):
+    return 'w' if kind == 'send' else 'r'
+
   def _park(self, kind):
+    slot = self._slot(kind)
+    if self._waiters.get(slot) is not None:
+      # gevent: a second greenlet waiting on the same socket for the same direction
+      from gevent.exceptions import ConcurrentObjectUseError
+      raise ConcurrentObjectUseError('This socket is already used by another greenlet: %r' % (self._waiters[slot][1],))
     w = Waiter()
-    self._waiter = w
-    self._wait_kind = kind
+    self._waiters[slot] = (w, kind)
     try:
       return w.get()
     finally:
-      if self._waiter is w:
-        self._waiter = None
-        self._wait_kind = None
+      cur = self._waiters.get(slot)
+      if cur is not None and cur[0] is w:
+        self._waiters[slot] = None
 
-  def _wake(self, value=None):
-    w = self._waiter
-    if w is not None:
-      self._waiter = None
-      w.switch(value)
+  def _wake(self, kind, value=None):
+    slot = self._slot(kind)
+    cur = self._waiters.get(slot)
+    if cur is not None and cur[1] == kind:
+      self._waiters[slot] = None
+      cur[0].switch(value)
 
-  def _wake_exc(self, exc):
-    w = self._waiter
-    if w is not None:
-      self._waiter = None
-      w.throw(exc)
+  def _wake_exc_all(self, exc):
+    for slot in ('r', 'w'):
+      cur = self._waiters.get(slot)
+      if cur is not None:
+        self._waiters[slot] = None
+        cur[0].throw(exc)
+
+  def _is_waiting(self, kind):
+    cur = self._waiters.get(self._slot(kind))
+    return cur is not None and cur[1] == kind
 
   def _later(self, delay, fn, *args):
     loop = self.net.loop
@@ -120,8 +136,8 @@ class SimConn(object):
     raise ConnectionRefusedError(errno.ECONNREFUSED, 'Connection refused (simulated)')
 
   def _connect_done(self, ok):
-    if self._wait_kind == 'connect':
-      self._wake(ok)
+    if self._is_waiting('connect'):
+      self._wake('connect', ok)
 
   def resolve_connect(self, ok=True):
     """Driver: complete a hanging/manual connect."""
@@ -167,10 +183,14 @@ class SimConn(object):
     return None
 
   def _send_ready(self):
-    if self._wait_kind == 'send':
-      self._wake(None)
+    if self._is_waiting('send'):
+      self._wake('send', None)
 
   def send(self, data):
+    # a single send() may accept only part of the buffer (send_max: socket buffer space per call)
+    data = bytes(data)
+    if self.send_max is not None and len(data) > self.send_max:
+      data = data[:self.send_max]
     self.sendall(data)
     return len(data)
 
@@ -229,9 +249,9 @@ class SimConn(object):
     self.net._log('close', self)
     if self.peer is not None:
       self.peer.on_close(self)
-    if self._waiter is not None:
-      # gevent cancels pending waits on close: the blocked greenlet gets EBADF
-      self.net.loop.run_callback(self._wake_exc,
+    if self._waiters['r'] is not None or self._waiters['w'] is not None:
+      # gevent cancels pending waits on close: the blocked greenlets get EBADF
+      self.net.loop.run_callback(self._wake_exc_all,
                                  OSError(errno.EBADF, 'Bad file descriptor (simulated: closed during wait)'))
 
   # ------------------------------------------------------------ driver / peer side
@@ -245,29 +265,34 @@ class SimConn(object):
     if mark is not None:
       self.marks.append((self.fed_total, mark))
     self.net._log('feed', self, n=len(data))
-    if self._wait_kind == 'recv':
+    if self._is_waiting('recv'):
       self.net.loop.run_callback(self._recv_ready)
 
   def _recv_ready(self):
-    if self._wait_kind == 'recv':
-      self._wake(None)
+    if self._is_waiting('recv'):
+      self._wake('recv', None)
 
   def feed_eof(self):
     self.rx_eof = True
     self.net._log('peer_eof', self)
-    if self._wait_kind == 'recv':
+    if self._is_waiting('recv'):
       self.net.loop.run_callback(self._recv_ready)
 
   def feed_error(self, exc=None):
     self.rx_err = exc or ConnectionResetError(errno.ECONNRESET, 'Connection reset (simulated)')
     self.tx_err = BrokenPipeError(errno.EPIPE, 'Broken pipe (simulated)')
     self.net._log('peer_reset', self)
-    if self._wait_kind == 'recv':
+    if self._is_waiting('recv'):
       self.net.loop.run_callback(self._recv_ready)
 
   @property
   def waiting(self):
-    return self._wait_kind
+    """'connect' | 'recv' | 'send' | None (the read side is reported when both directions are parked)."""
+    for slot in ('r', 'w'):
+      cur = self._waiters.get(slot)
+      if cur is not None:
+        return cur[1]
+    return None
 
 
 class SimNet(object):
